@@ -93,8 +93,16 @@ def orders(rng, opts, path, out, count):
     return res
 
 
+def _bytes_keys(v):
+    if isinstance(v, dict):
+        return {k: _bytes_keys(x) for k, x in v.items()}
+    if isinstance(v, list):
+        return [_bytes_keys(x) for x in v]
+    return v
+
+
 def normalized(raw):
-    meta = refspec.strict_decode(raw)
+    meta = _bytes_keys(refspec.lenient_decode(raw))
     meta.pop(b"creation date", None)
     return meta
 
